@@ -11,6 +11,9 @@ NOTE = ("Trusted base: the Go type checker (go/types), go/packages loading of /r
 
 # id -> (technique, level text, design ref)
 CLAIMS = {
+ "C30": ("pinned census of metering edges (function -> computation/memory kinds, resolved constants) + per-iteration placement of loop metering + dominance pairing of call-depth increment/decrement + VM limit/instruction checks + peephole pattern opcode check",
+         "Structural necessary conditions: no reviewed metering edge disappears, loops are metered per iteration in both engines, the tracked call depth cannot drift from the real depth, the VM enforces its stack limit, and optimisation cannot delete metering instructions.",
+         "DESIGN.md §4 C30"),
  "C10": ("dominance / must-pass-through on the SSA CFG of visitFunctionBody + no-early-exit check of the condition-wrapper loop + census of the compiler's condition desugaring + save/restore discipline of the post-condition index",
          "Structural necessary conditions: pre-conditions precede the body and post-conditions precede every return after it, every declared function is considered for inherited conditions, the compiler desugars both condition kinds and never loses the enclosing function's post-condition target.",
          "DESIGN.md §4 C10"),
